@@ -312,3 +312,100 @@ pub fn run(tkind: TKind, depth: usize) {
     w.with_transport(V { depth });
     mmio::set_handler(None);
 }
+
+// ------------------------------------------------------------------------------------------------
+// The formatting adapter: every Unicode scalar value through `fmt::Write::write_char`, and
+// formatted output that passes characters (arguments, fill characters) rather than string pieces.
+
+struct VFmt;
+
+impl TransportVisitor for VFmt {
+    type Out = (u64, Vec<(String, String)>);
+    fn visit<T: Transport + 'static>(self, t: T, w: &DWorld) -> Self::Out {
+        use core::fmt::Write;
+        let tx: Rc<RefCell<Vec<u8>>> = Rc::new(RefCell::new(vec![]));
+        let co: CoRc = {
+            let tx = tx.clone();
+            CoDevice::new(
+                w.dev.clone(),
+                Box::new(move |q, _chain, readable| {
+                    if q == 0 {
+                        Action::Hold
+                    } else {
+                        tx.borrow_mut().extend_from_slice(readable);
+                        Action::Complete(vec![], 0)
+                    }
+                }),
+            )
+        };
+        cosim::install(&co);
+        let mut out = vec![];
+        let mut n = 0u64;
+        let mut con = match VirtIOConsole::<LabHal, T>::new(t) {
+            Ok(c) => c,
+            Err(e) => {
+                cosim::uninstall();
+                return (0, vec![("construction".into(), format!("{:?}", e))]);
+            }
+        };
+        for cp in 0..=0x10FFFFu32 {
+            let Some(ch) = char::from_u32(cp) else { continue };
+            tx.borrow_mut().clear();
+            let r = con.write_char(ch);
+            n += 1;
+            let mut buf = [0u8; 4];
+            let want = ch.encode_utf8(&mut buf).as_bytes();
+            if r.is_err() || tx.borrow()[..] != *want {
+                if out.len() < 4 {
+                    out.push(("fmt-write_char".to_string(), format!("write_char(U+{:04X}) -> {:?}; the transmit queue received {:x?}, the character's UTF-8 encoding is {:x?}", cp, r, &tx.borrow()[..], want)));
+                }
+            }
+            if cp % 4096 == 0 {
+                hal::with(|h| h.compact());
+                co.borrow_mut().served.clear();
+            }
+        }
+        // Formatted output with character arguments and non-ASCII fill characters.
+        let cases: Vec<(String, Box<dyn Fn(&mut VirtIOConsole<LabHal, T>) -> core::fmt::Result>)> = vec![
+            ("{}{}".into(), Box::new(|c| write!(c, "{}{}", '\u{e9}', 'x'))),
+            ("{:\u{b7}>4}".into(), Box::new(|c| write!(c, "{:\u{b7}>4}", 7))),
+            ("{:\u{ff}<3}|{}".into(), Box::new(|c| write!(c, "{:\u{ff}<3}|{}", "a", '\u{80}'))),
+            ("{:?}".into(), Box::new(|c| write!(c, "{:?}", "q\u{e9}\n"))),
+            ("empty".into(), Box::new(|c| write!(c, "{}{}", "", "z"))),
+        ];
+        for (name, f) in cases {
+            tx.borrow_mut().clear();
+            let r = match crate::util::catch(std::panic::AssertUnwindSafe(|| f(&mut con))) {
+                Ok(r) => r,
+                Err(p) => {
+                    out.push(("fmt-write-panic".to_string(), format!("write!(console, {:?}, ..) panicked: {}", name, p)));
+                    break;
+                }
+            };
+            n += 1;
+            let mut want = String::new();
+            match name.as_str() {
+                "{}{}" => write!(want, "{}{}", '\u{e9}', 'x').unwrap(),
+                "{:\u{b7}>4}" => write!(want, "{:\u{b7}>4}", 7).unwrap(),
+                "{:\u{ff}<3}|{}" => write!(want, "{:\u{ff}<3}|{}", "a", '\u{80}').unwrap(),
+                "empty" => write!(want, "{}{}", "", "z").unwrap(),
+                _ => write!(want, "{:?}", "q\u{e9}\n").unwrap(),
+            }
+            if r.is_err() || tx.borrow()[..] != *want.as_bytes() {
+                out.push(("fmt-write".to_string(), format!("write!(console, {:?}, ..) -> {:?}; the transmit queue received {:x?}, the formatted text is {:x?}", name, r, &tx.borrow()[..], want.as_bytes())));
+            }
+        }
+        drop(con);
+        cosim::uninstall();
+        (n, out)
+    }
+}
+
+/// Runs the sweep; returns (cases, violations).
+pub fn sweep_fmt(tkind: TKind) -> (u64, Vec<(String, String)>) {
+    hal::reset();
+    let w = DWorld::new(Kind::Console, tkind, F_VERSION_1, Kind::Console.default_config());
+    let r = w.with_transport(VFmt);
+    mmio::set_handler(None);
+    r
+}
